@@ -1171,6 +1171,15 @@ pub fn run_c14(tier: Tier) -> i32 {
             fams.push(json!({"family": f.name(), "legal_members": n, "flipped_members": n2, "secs": t0.elapsed().as_secs_f64()}));
         }
     }
+    // checks against a king that cannot move while other pieces can (RINGCHK), and crowded kings
+    {
+        let t0 = Instant::now();
+        let fam = RingChk;
+        let sf = Strided(&fam, if tier == Tier::Quick { 1_201 } else { 37 });
+        let n = for_family(&sf, &|p| visit(&ctx, p));
+        let n2 = for_family(&Flipped(&sf), &|p| visit(&ctx, p));
+        fams.push(json!({"family": sf.name(), "legal_members": n, "flipped_members": n2, "secs": t0.elapsed().as_secs_f64()}));
+    }
     // castling rights x pending e.p. x rooks that can reach the same squares
     {
         let t0 = Instant::now();
